@@ -53,7 +53,8 @@ def kindOf : List (Sample Rat) → String
   | .raw _ :: _ => "int"
   | .scaled _ :: _ => "float"
 
-def handle (entry : String) (j : Json) : Except String Json := do
+/-- one generator alone: the chunk generators of one `chunks(...)` call, or one `WavStream` -/
+def handle1 (entry : String) (j : Json) : Except String Json := do
   match entry with
   | "chunks" =>
     let fmt ← fmtOf (← getStr (← field j "fmt"))
@@ -110,5 +111,15 @@ def handle (entry : String) (j : Json) : Except String Json := do
                 ("spec_taken", natToJson (min k n)), ("spec_closed", Json.bool (closedAfter n k))])]
     pure <| Json.mkObj (base ++ specPart ++ anyPart ++ lazyPart)
   | _ => throw s!"C18: unknown entry {entry}"
+
+/-- `conc`: several generators alive at once.  The model has no shared state: every generator is
+    the pure function `handle1` of ITS OWN request, whatever the schedule in which the real
+    generators were advanced (the schedule is not even sent to the driver). -/
+def handle (entry : String) (j : Json) : Except String Json := do
+  match entry with
+  | "conc" =>
+    let gs ← getList (fun g => do handle1 (← getStr (← field g "entry")) g) (← field j "gens")
+    pure <| Json.mkObj [("gens", Json.arr gs)]
+  | _ => handle1 entry j
 
 end ALV.Driver.C18
